@@ -1,4 +1,5 @@
 import LassoProofs.C06
+import LassoProofs.Lemmas.Grow
 import LassoProofs.C12
 /-
   C04 — memory safety: no history of safe calls corrupts, leaks or escapes the arena.
@@ -102,5 +103,19 @@ where
       · exact hw op hop
       · trivial
     · simp [Rodeo.run, Rodeo.apply]
+
+/-! ### Tie to the source: the growth logic of both arenas is regenerated from `store_str`
+
+`Extracted.arenaGrow` / `Extracted.lockfreeGrow` are the decision trees the extractor translates from
+the statements of `store_str` after the search for a block with room (conditions, amount claimed from
+the budget, block size and how it is built, stored capacity, placement).  For every arena state and
+every string the model does exactly what the tree says. -/
+theorem growth_logic_is_source :
+    (∀ (a : Arena) (s : Bytes), s.length ≠ 0 → ¬ s.length ≤ a.cur.free →
+      (Grow.eval (a.env s) Extracted.arenaGrow).map (a.applyOutcome s) = some (a.store s)) ∧
+    (∀ (a : LArena) (s : Bytes),
+      (Grow.eval (a.env s) Extracted.lockfreeGrow).map (a.applyOutcome s) = some (a.grow s)) ∧
+    Extracted.arenaAllocateIsCheckThenAdd = true :=
+  ⟨arena_store_is_source_tree, larena_grow_is_source_tree, arena_allocate_shape⟩
 
 end Lasso.C04
